@@ -307,6 +307,11 @@ impl<C: NtpClock> KalmanClockController<C> {
                 .algo_config
                 .slew_maximum_frequency_offset
                 .min(change.abs() / self.algo_config.slew_minimum_duration);
+            if !(freq > 0.0) {
+                // The change is too small to slew for (the slew frequency underflowed
+                // to zero), so only correct the frequency.
+                return self.change_desired_frequency(0.0, freq_delta);
+            }
             let duration = Duration::from_secs_f64(change.abs() / freq);
             debug!(
                 "Slewing by {}ms over {}s",
